@@ -726,7 +726,12 @@ func Build(rec *Recorder, n *Node, validate bool) z.ZogSchema {
 		}
 		s := z.Slice(Build(rec, n.Elem, validate), sopts...)
 		if n.Req != nil {
+			if n.ReqOver {
+				s.Optional()
+			}
 			s.Required(testOpts(n.Req)...)
+		} else if n.ReqOver {
+			s.Required().Optional() // the last call decides
 		}
 		if n.DefOver {
 			// the last Default call decides, also when it says "none"
